@@ -122,8 +122,36 @@ impl VotingBuilder {
     pub fn get_plutus_witnesses(&self) -> PlutusWitnesses {
         let tag = RedeemerTag::new_vote();
         let mut scripts = PlutusWitnesses::new();
-        for (i, (_, voter_votes)) in self.votes.iter().enumerate() {
+        // The ledger resolves a voting redeemer index against the voters ordered as:
+        // committee voters, DRep voters, stake pool voters; inside the first two groups script
+        // credentials come before key credentials, then by hash.
+        fn ledger_order(voter: &Voter) -> (u8, u8, Vec<u8>) {
+            fn cred_order(cred: &Credential) -> (u8, Vec<u8>) {
+                match (cred.to_scripthash(), cred.to_keyhash()) {
+                    (Some(script_hash), _) => (0, script_hash.to_bytes()),
+                    (_, Some(key_hash)) => (1, key_hash.to_bytes()),
+                    _ => (2, Vec::new()),
+                }
+            }
+            if let Some(cred) = voter.to_constitutional_committee_hot_credential() {
+                let (kind, hash) = cred_order(&cred);
+                (0, kind, hash)
+            } else if let Some(cred) = voter.to_drep_credential() {
+                let (kind, hash) = cred_order(&cred);
+                (1, kind, hash)
+            } else {
+                let hash = voter
+                    .to_stake_pool_key_hash()
+                    .map(|h| h.to_bytes())
+                    .unwrap_or_default();
+                (2, 0, hash)
+            }
+        }
+        let mut sorted_voters: Vec<&Voter> = self.votes.keys().collect();
+        sorted_voters.sort_by_key(|voter| ledger_order(voter));
+        for (voter, voter_votes) in self.votes.iter() {
             if let Some(ScriptWitnessType::PlutusScriptWitness(s)) = &voter_votes.script_witness {
+                let i = sorted_voters.iter().position(|v| *v == voter).unwrap_or(0);
                 let index = BigNum::from(i);
                 scripts.add(&s.clone_with_redeemer_index_and_tag(&index, &tag));
             }
